@@ -1271,3 +1271,271 @@ func H_C05_resetRestart() {
 		}
 	}
 }
+
+// ---- real graph: the node graph is built by the real compiler and runtime ----
+//
+// The MRO text below is parsed, compiled, turned into a call graph and
+// instantiated by the real code (syntax.ParseSourceBytes, MakePipelineCallGraph,
+// NewTopNode, NewPipestance, NewStagestance, NewNode, buildForks, makePrenodes,
+// makeReturnBindings, the preflight loop of NewPipestance, setPrenode), inside
+// the engine.  The oracle is the dependency relation read off the MRO text.
+
+const vsRealSrc = `
+stage PRE(
+    in  int x,
+    src comp "bin",
+)
+
+stage A(
+    in  int  x,
+    out int  o,
+    out bool flag,
+    src comp "bin",
+)
+
+stage B(
+    in  int x,
+    out int o,
+    src comp "bin",
+)
+
+stage C(
+    in  int x,
+    out int o,
+    src comp "bin",
+)
+
+stage D(
+    in  int x,
+    out int o,
+    src comp "bin",
+)
+
+stage E(
+    in  int x,
+    out int o,
+    src comp "bin",
+)
+
+stage F(
+    in  int[] xs,
+    out int   o,
+    src comp  "bin",
+)
+
+pipeline R(
+    in  int x,
+    out int o,
+)
+{
+    call B(
+        x = self.x,
+    )
+
+    return (
+        o = B.o,
+    )
+}
+
+pipeline Q(
+    in  int x,
+    out int o,
+)
+{
+    call R(
+        x = self.x,
+    )
+
+    return (
+        o = R.o,
+    )
+}
+
+pipeline P(
+    in  int x,
+    out int o,
+    out int d,
+    out int f,
+)
+{
+    call PRE(
+        x = self.x,
+    ) using (
+        preflight = true,
+    )
+
+    call A(
+        x = self.x,
+    )
+
+    call C(
+        x = self.x,
+    )
+
+    call Q(
+        x = A.o,
+    )
+
+    call D(
+        x = C.o,
+    ) using (
+        disabled = A.flag,
+    )
+
+    map call E(
+        x = split [
+            1,
+            2,
+        ],
+    )
+
+    call F(
+        xs = E.o,
+    )
+
+    return (
+        o = Q.o,
+        d = D.o,
+        f = F.o,
+    )
+}
+
+call P(
+    x = 1,
+)
+`
+
+// what each stage call must wait for, read off the text above: the producers
+// of its inputs, the producer of its disabling condition, and the preflight of
+// every enclosing pipeline
+var vsRealStages = []string{"ID.ps.P.PRE", "ID.ps.P.A", "ID.ps.P.C", "ID.ps.P.Q.R.B", "ID.ps.P.D", "ID.ps.P.E", "ID.ps.P.F"}
+var vsRealDeps = [][]int{
+	{},        // PRE
+	{0},       // A
+	{0},       // C
+	{0, 1},    // B (two pipeline levels down) <- A.o
+	{0, 2, 1}, // D <- C.o, disabled = A.flag
+	{0},       // E (2 forks)
+	{0, 5},    // F <- E.o
+}
+
+type vsReal struct {
+	ps    *Pipestance
+	nodes []*Node
+}
+
+// vsRealGraph instantiates the pipeline once per engine worker (the build is
+// concrete); whatever a path does to it is undone when the path ends.
+func vsRealGraph() (*Pipestance, []*Node) {
+	disableUniquification = false
+	vsDisabled, vsResolveErr, vsDefsErr, vsReadErr = false, false, false, false
+	vsOutsOK, vsChunkOutOK = true, true
+	vsChunks = 1
+	r := verifCached("vsRealGraph", func() any {
+		rt := vsRuntime()
+		_, _, ps, err := rt.instantiatePipeline([]byte(vsRealSrc), "/m/p.mro", "ps", "/ps", nil, "none", nil, false, true, context.Background())
+		if err != nil {
+			panic("fixture does not instantiate: " + err.Error())
+		}
+		var nodes []*Node
+		for _, fq := range vsRealStages {
+			n := ps.node.top.allNodes[fq]
+			if n == nil {
+				panic("fixture has no node " + fq)
+			}
+			nodes = append(nodes, n)
+		}
+		return &vsReal{ps, nodes}
+	}).(*vsReal)
+	return r.ps, r.nodes
+}
+
+// H_SCHED_realGraph(which): Node.step of stage call `which` in the instantiated
+// pipeline, from arbitrary coarse states of every fork of every stage.
+//
+//	C02: a job of the call is submitted, and the node is running, only when
+//	     every call it depends on according to the MRO text (data, disabling
+//	     condition, preflights of all enclosing pipelines) is complete or
+//	     disabled.
+//	C03: the map call has exactly one fork per element; a disabled fork submits
+//	     nothing.
+func H_SCHED_realGraph(which int) {
+	ps, nodes := vsRealGraph()
+	_ = ps
+	verifAssert(len(nodes[5].forks) == 2, "C03: a map call over a two-element array has exactly two forks")
+	for i, n := range nodes {
+		if i != 5 {
+			verifAssert(len(n.forks) == 1, "C03: a call that is not mapped has exactly one fork")
+		}
+		for j, f := range n.forks {
+			vsForkBits(f, vsRealStages[i][8:]+string(rune('0'+j)))
+		}
+	}
+	target := nodes[which]
+	wasRunning := verifBool("target.wasRunning")
+	if wasRunning {
+		target.state = Running
+		// NodeInv: step() only sets running when every prenode was done, and
+		// finished prenodes stay finished
+		for _, pn := range target.prenodes {
+			verifAssume(vsDone(pn.getNode()))
+		}
+	}
+	vsDisabled = verifBool("disabled")
+	depsDone := true
+	for _, d := range vsRealDeps[which] {
+		depsDone = depsDone && vsDone(nodes[d])
+	}
+	target.step()
+	verifCover("real node stepped")
+	if vsExecFor(target) > 0 {
+		verifCover("real node submitted a job")
+		verifAssert(depsDone, "C02: no job of a call starts before every call it depends on (per the MRO text) has finished")
+		verifAssert(!vsDisabled, "C03: a disabled call submits nothing")
+	}
+	if target.state == Running {
+		verifAssert(depsDone, "C02: a call is running only when everything it depends on has finished")
+	}
+	if !depsDone {
+		verifCover("real node waits")
+	}
+	for i, other := range nodes {
+		if i != which {
+			verifAssert(vsExecFor(other) == 0, "stepping one node submits no job of another")
+		}
+	}
+	// C06 on the same graph
+	failed, allFinal := false, true
+	for _, f := range target.forks {
+		st := f.getState()
+		if st == Failed {
+			failed = true
+		} else if st != Complete && st != DisabledState {
+			allFinal = false
+		}
+	}
+	if failed {
+		verifCover("real node failed")
+		verifAssert(target.state != Complete && target.state != DisabledState, "C06: a call with a failed fork is never complete")
+		verifAssert(ps.GetState(context.Background()) != Complete, "C06: the pipestance never reports success while a call has a failed fork")
+		if allFinal {
+			// (Node.getState stops at the first fork still in progress, so a later
+			// failed fork is only seen once the earlier ones have finished)
+			verifAssert(target.state == Failed, "C06: a call with a failed fork and no fork in progress is failed")
+			_, onFrontier := ps.node.top.node.frontierNodes.nodes[target.GetFQName()]
+			verifAssert(onFrontier, "C06: a failed call stays on the frontier")
+			verifAssert(ps.GetState(context.Background()) == Failed, "C06: the pipestance is failed while a call is failed")
+		}
+		// calls depending on the failed call are never started: any one of them
+		pick := verifInt("dependent")
+		verifAssume(verifAll(pick >= 0, pick < len(nodes)))
+		pick = verifConcretize(pick)
+		for _, d := range vsRealDeps[pick] {
+			if d == which {
+				st := nodes[pick].getState()
+				verifAssert(st == Waiting || st == Complete || st == DisabledState || st == Failed,
+					"C06: a call depending on the failed call is never started")
+			}
+		}
+	}
+}
